@@ -812,7 +812,14 @@ func sendCommands(e *Env) {
 		sendAfterFault(e, g)
 		return
 	}
-	s := startSession(e, ClientOpts{Nick: "me", Flood: true}, func(l *simnet.Link) {
+	// a quarter of the runs leave flood protection on: the sender then spends most
+	// of its time pausing, and calls (and the client's own PONGs) arrive while a
+	// line is being held back
+	floodProtection := g.Pct(25)
+	if floodProtection {
+		e.S.Count("probe.commands-under-flood-protection")
+	}
+	s := startSession(e, ClientOpts{Nick: "me", Flood: !floodProtection}, func(l *simnet.Link) {
 		l.ChunkMode = g.Intn(4)
 		l.Window = []int{0, 0, 100, 1000}[g.Intn(4)]
 	})
@@ -1060,6 +1067,24 @@ func sendCommands(e *Env) {
 				return
 			}
 		}
+	}
+	if floodProtection && !c11 {
+		// held-back lines take their time: wait for the concurrent callers' lines
+		// (2 s and more each) before the stream is judged
+		want := 0
+		for _, k := range noiseSent {
+			want += k
+		}
+		simrt.BlockFor("send", "the concurrent callers' lines to be let out by flood protection", time.Duration(want+40)*7*time.Second, func() bool {
+			got := 0
+			for _, ln := range s.lines {
+				if strings.HasPrefix(ln, "NOISE ") {
+					got++
+				}
+			}
+			return got >= want
+		})
+		simrt.Settle(5 * time.Second)
 	}
 	if !c11 && !e.S.Failed() {
 		checkStream(e, s, noiseSent)
